@@ -34,6 +34,7 @@ class C11(core.Property):
                    "C11_refuted_utf8", "C11_refuted_eof", "C11_refuted", "C11_reference_agrees",
                    "C11_nonvacuous"]
     modules = ["Proofs.CodecProofs", "Props.C11"]
+    coq_targets = ["Props/C11.vo", "Extract/ExtractC11.vo"]
     rule = ("width cases: scalar value x encoding (all boundaries + seeded sample; thorough: all 1 112 064); "
             "string cases: every string up to length L over the class alphabet x every line 0..n+1 x every "
             "character 0..units+2 x 3 encodings, plus seeded random longer lines; non-trivial = the text has a "
